@@ -529,8 +529,9 @@ func (inp Input) ABIType(pos int) (int, atype) {
 		}
 		base = tuple(fields...)
 	case strings.HasPrefix(inp.Type, "bytes"):
+		rest := strings.TrimPrefix(inp.Type, "bytes")
 		switch {
-		case strings.TrimSuffix(strings.TrimPrefix(inp.Type, "bytes"), "[") == "":
+		case rest == "" || strings.HasPrefix(rest, "["):
 			base = dynamic()
 		default:
 			base = static()
